@@ -135,6 +135,9 @@ func shortName(fn *ssa.Function) string {
 	}
 	name := fn.Name()
 	if fn.Signature.Recv() != nil {
+		if i := strings.Index(name, "["); i >= 0 {
+			name = name[:i] // methods of generic instances: the type arguments are part of the receiver type
+		}
 		rt := fn.Signature.Recv().Type()
 		if p, ok := rt.(*types.Pointer); ok {
 			rt = p.Elem()
